@@ -8,7 +8,7 @@ from vt.ref import bleacc
 
 PDU_STATUSES = [0, 1, 2, 3, 4, 5, 6]
 READ_SETS = [[9], [10], [9, 10], [2, 9, 10]]
-WRITE_SETS = [[9], [12], [11], [9, 10], [9, 12], [9, 11, 10], [2]]
+WRITE_SETS = [[9], [12], [11], [9, 10], [9, 12], [9, 11, 10], [2], [2, 9], [9, 2], [2, 9, 10], [9, 2, 10], [2, 12, 9], [10, 9]]  # 2 is read-only: refused locally, wherever it stands in the batch
 READABLE = {2, 9, 10}
 WRITABLE = {3, 9, 10, 11, 12}
 VALS = {9: True, 10: 7, 11: 2.5, 12: 3, 2: "x", 3: True}
@@ -113,6 +113,9 @@ def plan(tier):
     for ids in READ_SETS:
         alph = PDU_STATUSES if len(ids) <= (2 if tier == "quick" else 3) else [0, 4, 6]
         vecs = list(itertools.product(alph, repeat=len(ids)))
+        work.append(("ble_read", {"ids": ids, "replies": vecs[:1], "vectors": vecs}))
+    for ids in ([9, 9, 10], [9, 10, 9], [10, 2, 2]):
+        vecs = [v for v in itertools.product([0, 4, 6], repeat=len(ids)) if all(v[a] == v[b] for a in range(len(ids)) for b in range(len(ids)) if ids[a] == ids[b])]
         work.append(("ble_read", {"ids": ids, "replies": vecs[:1], "vectors": vecs}))
     for ids in WRITE_SETS:
         alph = PDU_STATUSES if len(ids) <= (2 if tier == "quick" else 3) else [0, 3, 6]
